@@ -338,6 +338,45 @@ def duplicate(ctx):
     for (pb, pi, e) in fails:
         ctx.ob('R-C16c', 'insert:duplicate-is-pure', ev_in.get((pb, pi)) is False, loc=e['loc'],
                detail='no store through a pointer and no helper call on any path to the failing return', fn=f.q)
+    # decision table of one descent step over the comparator's sign
+    from .. import interp
+    from ..analyses import loops as _loops
+    lps = _loops(f)
+    if len(lps) != 1:
+        raise AnalysisBroken('insert: expected one descent loop')
+    h = list(lps)[0]
+    cmpv = None
+    for e in f.events():
+        if e['ev'] == 'store' and 'rhs' in e and strip(e['rhs']).get('k') == 'call' and last_member(strip(e['rhs']).get('fnexpr')) == ('iv_avl_tree', 'compare'):
+            cmpv = canon(e['lhs'])
+    if cmpv is None:
+        raise AnalysisBroken('insert: comparator call not found')
+    for sgn, val in (('<', -1), ('=', 0), ('>', 1)):
+        class A_(interp.Assignment):
+            pass
+        asg = interp.Assignment(bools={'*pp': True}, ints={cmpv: val})
+        trace_stores = []
+        def cm(e, env, a, val=val):
+            pass
+        # run one iteration with the comparator result forced
+        def on(e, env, val=val):
+            if e['ev'] == 'store' and canon(e['lhs']) == cmpv:
+                env[cmpv] = val
+        try:
+            res = interp.run(f, asg, start=h, stop_block=h, on_event=on)
+            stores = [(canon(e['lhs']), canon(e['rhs'])) for e in res['trace'] if e['ev'] == 'store' and 'rhs' in e and canon(e['lhs']) != cmpv]
+            went = [r for (l, r) in stores if r.endswith('->left') or r.endswith('->right')]
+            if sgn == '=':
+                ok = res['end'] == 'ret' and isinstance(res['ret'], int) and res['ret'] != 0
+                exp = 'returns failure at once'
+            else:
+                side = '->left' if sgn == '<' else '->right'
+                ok = res['end'] == 'stop' and len(went) == 1 and went[0].endswith(side)
+                exp = 'descends %s' % side[2:]
+            det = 'compare %s 0: %s, ended %s ret=%s; expected: %s' % (sgn, went, res['end'], res['ret'], exp)
+        except AnalysisBroken as ex:
+            ok, det = False, str(ex)
+        ctx.ob('R-C16c', 'insert:descent(compare%s0)' % sgn, ok, loc=f.loc, detail=det, fn=f.q)
     hd = holding(f)
     for (pb, pi, e) in fails:
         A = hd.get((pb, pi), frozenset())
